@@ -57,15 +57,17 @@ let handle line =
   | "S" ->
     let fuel = nat_of_int (next_int st) in
     let e = next_env st in
-    let rs = next_list st (fun st -> let ap = next_bool st in let u = next_universe st in (u, ap)) in
+    let rs = next_list st (fun st -> let ap = next_bool st in let src = next_bool st in let u = next_universe st in
+                                     ((if src then mark_source u else u), ap)) in
     let inputs = next_list st next_dist in
     let cons = next_opt st (fun st -> next_list st next_dist) in
     let remove_cons = next_bool st in
     let maxdg = next_optnat st in
     let ob_all = next_bool st in
     let ob = next_list st next_str in
+    let extras = next_list st next_str in
     let u = flatten_stack rs in
-    (match perform_compile_stack_ob fuel e rs inputs cons remove_cons maxdg ob_all ob with
+    (match perform_compile_stack_x fuel e rs inputs cons remove_cons maxdg ob_all ob extras with
      | COk (g, roots) ->
        Printf.sprintf "OK %s ROOTS %d %s" (print_graph e g) (List.length roots) (String.concat " " (List.map (key_of g) roots)) ^ " " ^ print_emitted e g roots
        ^ Printf.sprintf " CHK %s %s %s %s" (b2s (pins_ok_b e u g)) (b2s (coherent_b g roots)) (b2s (closed_b g roots)) (b2s (explain_honest_b e g roots))
